@@ -54,6 +54,7 @@ class World:
         self.store_writes = []
         self.panics = []
         self.ctx_stack = []
+        self.js_sets = []  # ($set name, value) in evaluation order: the script-side record of writes (C07's reference)
         self.pack_table = None
         self.handlers_installed = False
         self.eval_log = []
@@ -303,6 +304,7 @@ class World:
             return clone_value(kb.v) if kb is not None else None
 
         def setter(name, v):
+            self.js_sets.append((name, v))
             m = MapV(True, "Map")
             m.d[name] = KeyBox(name, v)
             I.call_raw("scheduler::process::task::Task::update_data", [Ptr(task.c, 0), Ptr([Agg("model::vars::Vars", [m])], 0)], None)
